@@ -469,6 +469,16 @@ func genBodyOp(r *rnd, allowNested bool) OpM {
 	}
 	op.Idx = r.n(1 << 16)
 	op.Name = genName(r)
+	if r.chance(1, 16) {
+		op.Kind = "rename_prefix"
+		op.K = r.n(1 << 10)
+		op.Mode = r.n(3)
+		op.Search = []string{r.pick("x", "var", "local", "a")}
+		if r.chance(1, 2) {
+			op.Search = append(op.Search, r.pick("y", "b", "list"))
+		}
+		return op
+	}
 	switch k := r.n(26); {
 	case k <= 4:
 		op.Kind = "set_value"
@@ -598,6 +608,11 @@ func genSession(r *rnd, h *History, deep bool) {
 			continue
 		}
 		op := OpM{Idx: r.n(1 << 16), Name: sessionNames[r.n(len(sessionNames))]}
+		if r.chance(1, 14) {
+			op.Kind, op.K, op.Mode = "rename_prefix", r.n(1<<10), 1+r.n(2)
+			h.Ops = append(h.Ops, op)
+			continue
+		}
 		switch k := r.n(20); {
 		case k <= 4:
 			op.Kind = "remove_attr"
